@@ -397,7 +397,7 @@ def alphabet_for(fields, mode, i, cmdname=None):
 
 # ---- enums -----------------------------------------------------------------------------------
 def variant_kinds():
-    return ["unit", "unit_doc", "unit_short", "unit_long", "named", "tuple", "command_fields", "command_unit", "unit_hidden", "unit_env_short", "unit_env_only", "command_head_foot"]
+    return ["unit", "unit_doc", "unit_short", "unit_long", "named", "tuple", "command_fields", "command_unit", "unit_hidden", "unit_env_short", "unit_env_only", "command_head_foot", "named_adjacent"]
 
 def emit_enum(i, kinds, mode):
     it = Item()
@@ -466,6 +466,12 @@ def emit_enum(i, kinds, mode):
             lets += '    let alt%d = {\n        let inner%d = short(\'i\').switch();\n        construct!(%s::%s { inner%d })\n    }\n    .to_options()\n    .header("variant header %d")\n    .footer("variant footer %d")\n    .command(%s);\n' % (k, k, ty, vn, k, k, k, rs_str(kb))
             alpha += [kb, "-i"]
             paths.append([kb])
+        elif kind == "named_adjacent":
+            # a variant with fields restricted to one block of neighbouring items
+            c = "efgh"[k]
+            src += '    #[bpaf(adjacent)]\n    %s {\n        #[bpaf(short(\'%s\'))]\n        exec%d: (),\n        #[bpaf(positional("CMD"))]\n        cmd%d: String,\n    },\n' % (vn, c, k, k)
+            lets += '    let alt%d = {\n        let exec%d = short(\'%s\').req_flag(());\n        let cmd%d = positional::<String>("CMD");\n        construct!(%s::%s { exec%d, cmd%d }).adjacent()\n    };\n' % (k, k, c, k, ty, vn, k, k)
+            alpha += ["-" + c, "w"]
         elif kind == "command_unit":
             src += '    #[bpaf(command("unitcmd%d"))]\n    %s,\n' % (k, vn)
             lets += '    let alt%d = pure(%s::%s).to_options().command("unitcmd%d");\n' % (k, ty, vn, k)
@@ -537,6 +543,23 @@ for shown in ["display_fallback", "debug_fallback"]:
     it.descr = "struct parser with doc comment and type-level fallback + %s" % shown
     it.alphabet = ["v", "7", "--zz", "--width=7", "--width=x", "--height=7", "--width", "--height"]
     it.paths = [[]]
+    items.append(it)
+    n += 1
+# a command with a type-level default: the default belongs to the value, not to the command
+# (`body.fallback(X).to_options().command(..)`)
+for used in ["fallback", "fallback_with"]:
+    it = Item()
+    ty = "Tcf%d" % n
+    fb = "fallback(%s { jobs: 1, fast: false })" % ty if used == "fallback" else "fallback_with(default_%s)" % ty.lower()
+    extra = "" if used == "fallback" else "pub fn default_%s() -> Result<%s, String> {\n    Ok(%s { jobs: 1, fast: false })\n}\n" % (ty.lower(), ty, ty)
+    it.derive_src = ('#[derive(Debug, Clone, PartialEq, Bpaf)]\n#[bpaf(command("build"), %s, generate(d%d))]\n'
+                     'pub struct %s {\n    #[bpaf(long)]\n    jobs: u32,\n    #[bpaf(long)]\n    fast: bool,\n}\n%s') % (fb, n, ty, extra)
+    it.manual_src = ('pub fn m%d() -> impl Parser<%s> {\n    let jobs = long("jobs").argument::<u32>("ARG");\n    let fast = long("fast").switch();\n'
+                     '    construct!(%s { jobs, fast }).%s.to_options().command("build")\n}\n') % (n, ty, ty, fb)
+    it.kind = "parser"
+    it.descr = "struct command(\"build\") with a type-level %s" % used
+    it.alphabet = ["build", "--jobs=7", "--jobs=x", "--jobs", "7", "--fast", "v"]
+    it.paths = [[], ["build"]]
     items.append(it)
     n += 1
 # enums: all ordered pairs of variant kinds, some triples
